@@ -357,7 +357,11 @@ func DumpPipeline(p *pipeline.Pipeline) Dump {
 			}
 			return s
 		}
-		nd := NodeDump{Name: n.Name(), Type: strings.TrimPrefix(fmt.Sprintf("%T", n), "*pipeline."),
+		typ := strings.TrimPrefix(fmt.Sprintf("%T", n), "*pipeline.")
+		if typ == "InfluxQLNode" {
+			typ += "[" + n.Desc() + "]" // one Go type for ~20 functions: the function is part of the kind
+		}
+		nd := NodeDump{Name: n.Name(), Type: typ,
 			Head:    fmt.Sprintf("%T desc=%s wants=%v provides=%v", n, n.Desc(), n.Wants(), n.Provides()),
 			Parents: names(n.Parents()), Children: names(n.Children())}
 		d := &dumper{}
@@ -441,33 +445,6 @@ func DiffPaths(a, b Dump) []string {
 	if a.Iso() == b.Iso() {
 		return nil
 	}
-	key := func(d Dump) ([]NodeDump, bool) {
-		// order by a structural label that ignores property values: type + ancestry
-		lab := map[string]string{}
-		for _, nd := range d {
-			lab[nd.Name] = ""
-		}
-		for it := 0; it <= len(d)+1; it++ {
-			next := map[string]string{}
-			for _, nd := range d {
-				ps := make([]string, len(nd.Parents))
-				for i, p := range nd.Parents {
-					ps[i] = lab[p]
-				}
-				next[nd.Name] = digest(nd.Head + "|" + strings.Join(ps, ","))
-			}
-			lab = next
-		}
-		out := append([]NodeDump{}, d...)
-		sort.SliceStable(out, func(i, j int) bool { return lab[out[i].Name] < lab[out[j].Name] })
-		uniq := map[string]bool{}
-		for _, nd := range out {
-			uniq[lab[nd.Name]] = true
-		}
-		return out, len(uniq) == len(out)
-	}
-	as, _ := key(a)
-	bs, _ := key(b)
 	// graph: the first node (Walk order) of a that b does not have - by Go type, or by
 	// its edge types if b has the type with other edges; an extra node of b; else the wiring
 	graph := func() []string {
@@ -495,13 +472,62 @@ func DiffPaths(a, b Dump) []string {
 		}
 		return []string{"graph:wiring"}
 	}
-	if len(as) != len(bs) {
+	if len(a) != len(b) {
 		return graph()
 	}
+	// alignment: nodes with the same place in the graph (structural label) AND the same own
+	// property values are the same node; what is left is paired by place in the graph
+	lab := func(d Dump) map[string]string {
+		l := map[string]string{}
+		for _, nd := range d {
+			l[nd.Name] = ""
+		}
+		for it := 0; it <= len(d)+1; it++ {
+			next := map[string]string{}
+			for _, nd := range d {
+				ps := make([]string, len(nd.Parents))
+				for i, p := range nd.Parents {
+					ps[i] = l[p]
+				}
+				next[nd.Name] = digest(nd.Head + "|" + strings.Join(ps, ","))
+			}
+			l = next
+		}
+		return l
+	}
+	own := func(nd NodeDump) string {
+		var sb strings.Builder
+		for _, f := range nd.Fields {
+			sb.WriteString(f.Path + "=" + reName.ReplaceAllString(f.Val, "<node>") + "\n")
+		}
+		return digest(sb.String())
+	}
+	la, lb := lab(a), lab(b)
+	usedB := make([]bool, len(b))
+	var restA []NodeDump
+	for _, x := range a {
+		found := false
+		for k, y := range b {
+			if !usedB[k] && la[x.Name] == lb[y.Name] && own(x) == own(y) {
+				usedB[k], found = true, true
+				break
+			}
+		}
+		if !found {
+			restA = append(restA, x)
+		}
+	}
 	set := map[string]bool{}
-	for i := range as {
-		x, y := as[i], bs[i]
-		if x.Head != y.Head || len(x.Parents) != len(y.Parents) || len(x.Children) != len(y.Children) {
+	for _, x := range restA {
+		var y *NodeDump
+		for k := range b {
+			if !usedB[k] && la[x.Name] == lb[b[k].Name] {
+				usedB[k] = true
+				y = &b[k]
+				break
+			}
+		}
+		if y == nil || x.Head != y.Head || len(x.Parents) != len(y.Parents) || len(x.Children) != len(y.Children) {
 			return graph()
 		}
 		fx := map[string]string{}
